@@ -948,6 +948,10 @@ func (b *BaseStore) LoadFromSnapshot(ctx context.Context) error {
 		return fmt.Errorf("unable to join log: %w", err)
 	}
 
+	// no progress is reported while a snapshot is read: account for its
+	// entries now, so that the progress catches up with the maximum
+	b.recalculateReplicationStatus(maxClock)
+
 	if err := b.updateIndex(ctx); err != nil {
 		return fmt.Errorf("unable to update index: %w", err)
 	}
